@@ -8,7 +8,7 @@ COMMON_TRUSTED = [
 ]
 
 PROPS = {}
-HOOK_COMMITS = ["f0964c3", "f0ee85c"]
+HOOK_COMMITS = ["f0964c3", "f0ee85c", "a38392f"]
 NOT_BUILT_REASON = "no check registered yet: the Lean model/theorems and the correspondence harness for this property have not been built in this session (work in progress, see DESIGN.md §12); the technique applies"
 
 PROPS["C05"] = {
@@ -145,4 +145,28 @@ PROPS["C10"] = {
     ],
     "assumptions": ["SM2 signature verification behaves as the relation signer = parent key (C01)"],
     "not_proved": ["verify_complete (every valid simple path within the budget is returned) as a theorem", "hostname_match_spec as a standalone characterisation (String functions do not reduce in the kernel; covered by correspondence)"],
+}
+
+PROPS["C03"] = {
+    "modules": ["Gmsm.Props.C03", "Gmsm.Props.C03Alg", "Gmsm.Proofs.ECFormulas"],
+    "theorems": [
+        "Props.C03.params_eq_std", "Props.C03.rinverse_ok", "Props.C03.p_prime", "Props.C03.n_prime", "Props.C03.a_eq_neg3",
+        "Props.C03.G_on_curve", "Props.C03.nG_zero", "Props.C03.G_ne_zero", "Props.C03.table_ok",
+        "Props.C03.keygen_range", "Props.C03.nonce_range",
+        "Props.C03Alg.wnafLoop_value", "Props.C03Alg.wnafLoop_isSome", "Props.C03Alg.wnaf_value", "Props.C03Alg.windowEval_correct",
+        "Proofs.ECFormulas.double_correct", "Proofs.ECFormulas.addMixed_correct", "Proofs.ECFormulas.addGeneric_correct",
+        "Proofs.ECFormulas.addGeneric_opposite", "Proofs.ECFormulas.double_point", "Proofs.ECFormulas.addMixed_point",
+        "Proofs.ECFormulas.addGeneric_point", "Proofs.ECFormulas.addGeneric_opposite_point",
+    ],
+    "gen_items": ["sm2."],
+    "gen_obligations": ["Gen.SM2.param*/precomputed regenerated from sm2/p256.go: parameters re-proved equal to GM/T 0003.5, comb table re-proved equal to the 30 multiples of G (kernel evaluation)"],
+    "level": "proof",
+    "claim": "Proved in Lean 4: p and n are prime (Pratt certificates), the parameters in the source are the standard's, G is on the curve and [n]G = O, every entry of the comb table in the source is the multiple of G it must be, the key range; the windowed-NAF recoding represents every scalar (loop invariant, termination within fuel), the evaluation loop of ScalarMult computes (value of digits)*P over any commutative group, and the Jacobian doubling / mixed addition / general addition formulas exactly as the Go code computes them equal the group law of Mathlib's Weierstrass curve (incl. z = 0 for opposite points). The Go algorithms are modelled at big-integer level (Model.SM2Curve) and compared with the real code on thousands of biased scalars/points, and the real code is compared with an independent affine specification.",
+    "note": "Partial where stated: the composition 'J-level model = k*P for all k' is not closed as one theorem (the pieces - recoding, evaluation loop, formulas - are; the exceptional-case side conditions of the comb for scalars < n are not proved), and the 9-limb Montgomery field arithmetic below the big-integer model is validated by correspondence (boundary limb patterns through IsOnCurve and the public API), not verified.",
+    "trusted_base": [
+        "Spec.SM2 affine arithmetic transcribes GM/T 0003.1 (validated: [n]G = O, the standard's signature and key-exchange examples)",
+        "Model.SM2Curve mirrors p256.go Add/Double/ScalarMult/ScalarBaseMult/sm2GenrateWNaf at big-integer level; tie = mec*/wnaf correspondence (hook sm2.VerifWNaf); limb-level code (sm2P256Mul/Square/ReduceDegree...) is NOT modelled",
+    ],
+    "assumptions": [],
+    "not_proved": ["scalarMult_correct / scalarBaseMult_correct as single end-to-end theorems about Model.SM2Curve (side conditions of incomplete mixed addition in the comb)", "limb-level field arithmetic (layer L): add_ok, mul_ok, reduceDegree_ok", "isOnCurve_iff at limb level"],
 }
